@@ -53,23 +53,32 @@ class Context():
         self._add_entity(namespace, 'classes', class_name, cls)
         self._add_entity(namespace, 'decls', class_name, cls)
 
+    def _remove_decl(self, namespace, entity, name):
+        entities = self._context.get(namespace, {})
+        is_current_decl = (
+            name in entities.get(entity, {}) and
+            name in entities.get('decls', {}) and
+            entities['decls'][name] is entities[entity][name]
+        )
+        self._remove_entity(namespace, entity, name)
+        # A declaration of another kind may have taken over this name.
+        if is_current_decl:
+            self._remove_entity(namespace, 'decls', name)
+
     def remove_type(self, namespace, type_name):
         self._remove_entity(namespace, 'types', type_name)
 
     def remove_var(self, namespace, var_name):
-        self._remove_entity(namespace, 'vars', var_name)
-        self._remove_entity(namespace, 'decls', var_name)
+        self._remove_decl(namespace, 'vars', var_name)
 
     def remove_func(self, namespace, func_name):
-        self._remove_entity(namespace, 'funcs', func_name)
-        self._remove_entity(namespace, 'decls', func_name)
+        self._remove_decl(namespace, 'funcs', func_name)
 
     def remove_lambda(self, namespace, shadow_name):
         self._remove_entity(namespace, 'lambdas', shadow_name)
 
     def remove_class(self, namespace, class_name):
-        self._remove_entity(namespace, 'classes', class_name)
-        self._remove_entity(namespace, 'decls', class_name)
+        self._remove_decl(namespace, 'classes', class_name)
 
     def _get_declarations_glob(self, namespace, decl_type):
         decls = OrderedDict({})
